@@ -48,7 +48,22 @@ def jobs(ctx):
   return out
 
 
+def writer_jobs(ctx):
+  """The bound with the real writer in the loop (backend faults included): whatever the writer does with a batch it
+  could not persist, the cache must stay within its hard limit at every scheduling point."""
+  out = []
+  for strat in ('sorted', 'max') if not ctx.thorough else STRATEGIES:
+    fb = 2 if strat == 'random' else 1
+    for mc, flow in ((2, False), (3, True)):
+      out.append(({'strategy': strat, 'max_cache': mc, 'flow': flow, 'files': ('a',), 'init': [('a', 1, 1.0), ('a', 2, 1.5)],
+                   'reactor': [('store', 'b', 1, 2.0), ('store', 'c', 1, 3.0), ('store', 'b', 2, 4.0)], 'passes': 2, 'faults': True,
+                   'oracles': ('c10',)}, (1, fb)))
+  return out
+
+
 def run(ctx):
+  from .. import writerh
+  writerh.run_jobs(ctx, writer_jobs(ctx), 'C10', required=('fault_injected',))
   cacheh.run_jobs(ctx, jobs(ctx), 'C10', required=('store_overlaps_drain', 'nonempty_drain', 'refused_store'))
   cacheseq.run(ctx, oracles=('c02', 'c10'), depth=ctx.pick(6, 8), strategies=STRATEGIES,
                max_cache=ctx.pick([1, 2, 3, 4], [1, 2, 3, 4, 5, 6]), flows=(False, True),
@@ -65,4 +80,7 @@ def replay(path):
   body = json.load(open(path))
   if body['replay'].get('engine') == 'evx-cacheseq':
     return cacheseq.replay(body)
+  if body['replay'].get('engine') == 'thrx-writer':
+    from .. import writerh
+    return writerh.replay_schedule(path)
   return cacheh.replay_schedule(path)
